@@ -470,9 +470,13 @@ class _ChildrenList(_TaskList):
         :raises RuntimeError: if WBS integrity lost (i.e. task with same ID already exists)
         """
         _check_not_none(task, 'Task')
+        others = [t for t in self._list if t is not task]
+        if index > len(others) or index < -len(others):
+            raise RuntimeError(f"Index {index} is out of range")
+        anchor = others[index] if index < len(others) else None
         task.parent = self.__parent
-        if len(self) > 0:
-            self.move(task, before=self[index])
+        if anchor is not None:
+            self.move(task, before=anchor)
 
     def move(self, tasks: Union['Task', Iterable['Task']], before: Optional['Task'] = None,
              after: Optional['Task'] = None) -> None:
@@ -494,15 +498,17 @@ class _ChildrenList(_TaskList):
             raise RuntimeError("After not found in list")
         if before is not None and after is not None:
             raise RuntimeError("'Before' and 'After' is not None. Only one parameter must be set")
+        if before is None and after is None:
+            raise RuntimeError("'Before' or 'After' must be not None")
+        if before in tasks or after in tasks:
+            raise RuntimeError("Can't move task before or after itself")
 
         for task in tasks:
             self._list.remove(task)
             if before is not None:
                 self._list.insert(self._list.index(before), task)
-            elif after is not None:
-                self._list.insert(self._list.index(after) + 1, task)
             else:
-                raise RuntimeError("'Before' or 'After' must be not None")
+                self._list.insert(self._list.index(after) + 1, task)
 
         self.__setter(self._list)
 
